@@ -20,7 +20,7 @@ import (
 	"verif/harness/xt"
 )
 
-const c11Rule = "rapid: provider configurations (static issuer with/without path, trailing slash, port; Host- and Forwarded-derived issuers with path; each of the six endpoints default / custom path with or without leading slash / nested path / external URL; WantAuthRequestsSigned in {'', false, 0, true, 1}; response algorithm; metadata signing on/off; encryption algorithm, organisation, contact, validity, cache duration, error URL set/unset; time format) x request Host / Forwarded values. Oracle: the served metadata is one well-formed md:EntityDescriptor; its entityID equals the Issuer of the replies that the SSO, callback, logout and attribute-query handlers produce for the same request host; every advertised Location is the configured URL, or issuer-without-trailing-slash + '/' + path whose path part is a route on which a valid request of the matching kind is handled by the matching handler (AuthnRequest -> 303 login redirect, callback -> Response, LogoutRequest -> LogoutResponse Success, AttributeQuery -> SOAP Success, certificate -> PEM); the signing KeyDescriptor certificate is the certificate endpoint's PEM and the KeyInfo certificate of an issued assertion, and verifies it; WantAuthnRequestsSigned is advertised as true/1 exactly when an unsigned, otherwise valid request from an SP that does not itself require signing is refused. Non-trivial: a non-default path, an issuer with path / trailing slash, or a host-derived issuer. Distinct by configuration vector."
+const c11Rule = "rapid: provider configurations (static issuer with/without path, trailing slash, port; Host- and Forwarded-derived issuers with path; each of the six endpoints default / custom path with or without leading slash / nested path / external URL; WantAuthRequestsSigned in {'', false, 0, true, 1}; response algorithm; metadata signing on/off; encryption algorithm, organisation, contact, validity, cache duration, error URL set/unset; time format) x request Host / Forwarded values. Oracle: the served metadata is one well-formed md:EntityDescriptor; its entityID equals the Issuer of the replies that the SSO, callback, logout and attribute-query handlers produce for the same request host; every advertised Location is the configured URL, or issuer-without-trailing-slash + '/' + path whose path part is a route on which a valid request of the matching kind is handled by the matching handler (AuthnRequest -> 303 login redirect, callback -> Response, LogoutRequest -> LogoutResponse Success, AttributeQuery -> SOAP Success, certificate -> PEM); the signing KeyDescriptor certificate is the certificate endpoint's PEM and the KeyInfo certificate of an issued assertion, and verifies it; WantAuthnRequestsSigned is advertised as true/1 exactly when an unsigned, otherwise valid request from an SP that does not itself require signing is refused (and, when advertised, also refused through the redirect binding and as a form whose action URL repeats the message in its query). Non-trivial: a non-default path, an issuer with path / trailing slash, or a host-derived issuer. Distinct by configuration vector."
 
 type C11Case struct {
 	Spec    world.Spec  `json:"spec"`
@@ -273,6 +273,33 @@ func c11Round(c C11Case, w *world.World, stage string) (vs []*ev.Violation, summ
 				}
 			}
 			add("valid-unsigned-request-refused", "WantAuthnRequestsSigned=%q (present %v) is advertised, yet an unsigned valid request addressed to the advertised location %q was refused on route %q: status %d %s %s", adv, hasAdv, locs["sso"][0], routes["sso"], r.Status, d.Kind, short(msg, 160))
+		}
+		// the same unsigned request travelling in other ways: through the redirect binding, and as a form whose action URL
+		// repeats the message in its query - however a request is classified, what is advertised as required is required
+		if advTrue {
+			for i, via := range []string{"redirect", "post+query", "post+query-deflated"} {
+				b := spsim.NewAuthnReq(fmt.Sprintf("_c11-sso-%d", i), c.Spec.SPs[0].EntityID)
+				b.IssueInstant = spsim.Instant(now, 0)
+				b.Destination = locs["sso"][0]
+				var hr2 obs.HTTPReq
+				switch via {
+				case "redirect":
+					hr2, _, _ = spsim.Encode(routes["sso"], wr(b.Tree(plainStyle)), spsim.Transport{Binding: "redirect", Plus: true, Encoding: A, RelayState: "rs"}, nil)
+				case "post+query":
+					hr2, _, _ = spsim.Encode(routes["sso"], wr(b.Tree(plainStyle)), spsim.Transport{Binding: "post", Plus: true, Encoding: A, RelayState: "rs"}, nil)
+					hr2.RawQuery = hr2.Body
+				default:
+					hr2, _, _ = spsim.Encode(routes["sso"], wr(b.Tree(plainStyle)), spsim.Transport{Binding: "post", Plus: true, Encoding: A, RelayState: "rs"}, nil)
+					q, _, _ := spsim.Encode(routes["sso"], wr(b.Tree(plainStyle)), spsim.Transport{Binding: "redirect", Plus: true, Encoding: A, RelayState: "rs"}, nil)
+					hr2.RawQuery = q.RawQuery
+				}
+				before, _ := createCalls(w)
+				r2 := do(hr2)
+				after, _ := createCalls(w)
+				if len(after) > len(before) || r2.Status == 303 {
+					add("want-signed-advertised-but-unsigned-accepted", "WantAuthnRequestsSigned=%q is advertised, yet an unsigned request sent as %s was accepted (status %d)", adv, via, r2.Status)
+				}
+			}
 		}
 		// an error reply of the SSO handler, for its Issuer
 		bad, _, _ := spsim.Encode(routes["sso"], []byte("<not-saml/>"), spsim.Transport{Binding: "post", Plus: true, Encoding: A, RelayState: A}, nil)
